@@ -1,5 +1,279 @@
 import GnpyModel.Scalar
-/- model file Chain (see DESIGN.md §2) -/
-namespace Gnpy
+/-
+C08 / C09 / C17 — OMS chains and what auto-design does to them.
 
-end Gnpy
+Anchors: gnpy/core/network.py `calculate_new_length`, `split_fiber`, `add_roadm_preamp`, `add_roadm_booster`,
+`add_inline_amplifier`, `add_missing_elements_in_network`, `add_connector_loss`, `add_fiber_padding`,
+`prev_node_generator` / `next_node_generator`, `span_loss`.
+
+A well-formed topology is a set of chains `endpoint · [line elements] · endpoint` (endpoint = ROADM /
+Transceiver, line element = Fiber | RamanFiber | Fused | Edfa).  Every function of `add_missing_elements_in_network`
+and `add_missing_fiber_attributes` acts on one chain at a time, so they are list transformations here.
+The amplifier recurrence (C09) is in `GnpyModel/Design.lean`, export/reload and SimParams (C17) in
+`GnpyModel/Redesign.lean`.
+-/
+namespace Gnpy.Chain
+
+inductive EndKind
+  | roadm
+  | trx
+  deriving DecidableEq, Repr, Inhabited
+
+/-- `FiberParams` as far as design reads or writes them (lengths in m, loss coefficient in dB/m at the
+reference frequency, `lumped` = total of the lumped losses in dB) plus the two attributes design attaches to
+the element: `estimated_gain` (RamanFiber only; the Raman solver is not modelled, the value is an input) and
+`design_span_loss`. -/
+structure FiberP (α : Type) where
+  length : α
+  lossCoef : α
+  conIn : Option α
+  conOut : Option α
+  attIn : α
+  lumped : α
+  raman : Bool
+  ramanGain : Option α
+  dsl : Option α
+
+/-- `EdfaOperational` + `type_variety` (`""` = to be selected by auto-design) -/
+structure EdfaP (α : Type) where
+  variety : String
+  gain : Option α
+  deltaP : Option α
+  outVoa : Option α
+  inVoa : Option α
+  tilt : Option α
+
+inductive Elem (α : Type)
+  | fiber (uid : String) (p : FiberP α)
+  | fused (uid : String) (loss : α)
+  | edfa (uid : String) (p : EdfaP α)
+
+def Elem.uid {α : Type} : Elem α → String
+  | .fiber u _ => u
+  | .fused u _ => u
+  | .edfa u _ => u
+
+def Elem.isFiber {α : Type} : Elem α → Bool
+  | .fiber _ _ => true
+  | _ => false
+
+def Elem.isFused {α : Type} : Elem α → Bool
+  | .fused _ _ => true
+  | _ => false
+
+def Elem.isEdfa {α : Type} : Elem α → Bool
+  | .edfa _ _ => true
+  | _ => false
+
+def Elem.isRaman {α : Type} : Elem α → Bool
+  | .fiber _ p => p.raman
+  | _ => false
+
+/-- the amplifier `add_roadm_booster` / `add_roadm_preamp` / `add_inline_amplifier` create:
+`operational={'gain_target': None, 'tilt_target': 0}`, `EdfaParams.default_values` (type_variety `''`);
+`EdfaOperational` defaults `in_voa` to 0 -/
+def newEdfa {α : Type} [NatCast α] : EdfaP α :=
+  { variety := "", gain := none, deltaP := none, outVoa := none, inVoa := some ((0:Nat) : α),
+    tilt := some ((0:Nat) : α) }
+
+def splitName (uid : String) (k n : Nat) : String := uid ++ "_(" ++ toString k ++ "/" ++ toString n ++ ")"
+def inlineName (uid : String) : String := "Edfa_" ++ uid
+def boosterName (roadm next : String) : String := "Edfa_booster_" ++ roadm ++ "_to_" ++ next
+def preampName (roadm prev : String) : String := "Edfa_preamp_" ++ roadm ++ "_from_" ++ prev
+
+section
+variable {α : Type} [Add α] [Sub α] [Mul α] [Div α] [Neg α] [NatCast α] [LT α] [LE α]
+  [DecidableLT α] [DecidableLE α] [Transc α]
+
+/-- Python `sum(iterable)`: left fold starting from 0 -/
+def sumLeft (l : List α) : α := l.foldl (· + ·) ((0:Nat) : α)
+
+/-- `Fiber.loss`: `loss_coef(ref) * length + con_in + con_out + att_in + sum(lumped)` -/
+def FiberP.loss (p : FiberP α) : α :=
+  p.lossCoef * p.length + p.conIn.getD ((0:Nat) : α) + p.conOut.getD ((0:Nat) : α) + p.attIn + p.lumped
+
+/-- the attenuation of the glass alone, `loss_coef * length` -/
+def FiberP.glassLoss (p : FiberP α) : α := p.lossCoef * p.length
+
+/-- `node.loss if node.passive else 0` -/
+def Elem.loss : Elem α → α
+  | .fiber _ p => p.loss
+  | .fused _ l => l
+  | .edfa _ _ => ((0:Nat) : α)
+
+/-- `estimate_raman_gain` once the estimate is cached on the element (0.0 for everything but a RamanFiber) -/
+def Elem.ramanGain : Elem α → α
+  | .fiber _ p => if p.raman then p.ramanGain.getD ((0:Nat) : α) else ((0:Nat) : α)
+  | _ => ((0:Nat) : α)
+
+/-! ### calculate_new_length / split_fiber -/
+
+/-- `int(a // b)` for `0 ≤ a`, `0 < b` by counting (fuel bounds the count) -/
+def floorDivAux (a b : α) : Nat → Nat → Nat
+  | 0, k => k
+  | f + 1, k => if ((k + 1 : Nat) : α) * b ≤ a then floorDivAux a b f (k + 1) else k
+
+def floorDiv (fuel : Nat) (a b : α) : Nat := floorDivAux a b fuel 0
+
+/-- `bounds.start <= x <= bounds.stop` -/
+def inBounds (lo hi x : α) : Prop := lo ≤ x ∧ x ≤ hi
+
+instance (lo hi x : α) : Decidable (inBounds lo hi x) := by unfold inBounds; exact inferInstance
+
+/-- `target_length = max(min_length, min(max_length, 90_000))` -/
+def targetLength (lo hi : α) : α := smax lo (smin hi ((90000:Nat) : α))
+
+/-- `calculate_new_length(fiber_length, bounds, target_length)` with `bounds = range(lo, hi)`;
+`n2` is `int(fiber_length // target_length)` -/
+def calcWith (L lo hi target : α) (n2 : Nat) : α × Nat :=
+  if L < hi then (L, 1) else
+    let n1 := n2 + 1
+    let l1 := L / ((n1 : Nat) : α)
+    let l2 := L / ((n2 : Nat) : α)
+    if inBounds lo hi l1 ∧ ¬ inBounds lo hi l2 then (l1, n1)
+    else if inBounds lo hi l2 ∧ ¬ inBounds lo hi l1 then (l2, n2)
+    else if l2 - target ≤ target - l1 ∧ l2 ≤ hi then (l2, n2)
+    else (l1, n1)
+
+def calcNewLength (fuel : Nat) (L lo hi target : α) : α × Nat :=
+  calcWith L lo hi target (floorDiv fuel L target)
+
+/-- the Python code divides by `n_spans2`, which is 0 when `fiber_length < target_length`
+(only possible when `min_length > max_length`): `ZeroDivisionError` -/
+def calcRaises (fuel : Nat) (L hi target : α) : Bool :=
+  if L < hi then false else floorDiv fuel L target == 0
+
+structure SplitCfg (α : Type) where
+  fuel : Nat
+  lo : α
+  hi : α
+  target : α
+
+/-- `split_fiber`: `n` identical spans named `uid_(k/n)`, each a copy of the fibre's parameters with the new length.
+The new elements are created as plain `elements.Fiber` even when the original was a RamanFiber (`raman := false`). -/
+def splitFiber (c : SplitCfg α) (uid : String) (p : FiberP α) : List (Elem α) :=
+  let r := calcNewLength c.fuel p.length c.lo c.hi c.target
+  if r.2 = 1 then [.fiber uid p]
+  else (List.range r.2).map (fun k => .fiber (splitName uid (k + 1) r.2) { p with length := r.1, raman := false })
+
+def splitElem (c : SplitCfg α) : Elem α → List (Elem α)
+  | .fiber u p => splitFiber c u p
+  | e => [e]
+
+def splitLine (c : SplitCfg α) (l : List (Elem α)) : List (Elem α) := l.flatMap (splitElem c)
+
+/-! ### add_roadm_preamp / add_roadm_booster / add_inline_amplifier -/
+
+/-- a preamp is inserted iff the chain ends at a ROADM and its last element is a Fiber (not Fused / Edfa / Transceiver) -/
+def addPreamp (dst : String) (dk : EndKind) (l : List (Elem α)) : List (Elem α) :=
+  match dk, l.getLast? with
+  | .roadm, some (.fiber u _) => l ++ [.edfa (preampName dst u) newEdfa]
+  | _, _ => l
+
+def addBooster (src : String) (sk : EndKind) (l : List (Elem α)) : List (Elem α) :=
+  match sk, l with
+  | .roadm, .fiber u p :: rest => .edfa (boosterName src u) newEdfa :: .fiber u p :: rest
+  | _, _ => l
+
+def addInline : List (Elem α) → List (Elem α)
+  | [] => []
+  | x :: rest =>
+    match x, rest with
+    | .fiber u _, .fiber _ _ :: _ => x :: .edfa (inlineName u) newEdfa :: addInline rest
+    | _, _ => x :: addInline rest
+
+structure Chain (α : Type) where
+  src : String
+  srcKind : EndKind
+  line : List (Elem α)
+  dst : String
+  dstKind : EndKind
+
+/-- `add_missing_elements_in_network` on one chain: split every fibre, then preamp/booster of the end ROADMs,
+then the inline amplifiers -/
+def addMissingLine (c : SplitCfg α) (ch : Chain α) : List (Elem α) :=
+  addInline (addBooster ch.src ch.srcKind (addPreamp ch.dst ch.dstKind (splitLine c ch.line)))
+
+def addMissing (c : SplitCfg α) (ch : Chain α) : Chain α := { ch with line := addMissingLine c ch }
+
+/-! ### add_connector_loss -/
+
+def addConn (dIn dOut eol : α) : List (Elem α) → List (Elem α)
+  | [] => []
+  | x :: rest =>
+    (match x with
+      | .fiber u p =>
+        let ci := p.conIn.getD dIn
+        let co := p.conOut.getD dOut
+        let co' := match rest with
+          | .fused _ _ :: _ => co
+          | _ => co + eol
+        Elem.fiber u { p with conIn := some ci, conOut := some co' }
+      | e => e) :: addConn dIn dOut eol rest
+
+/-! ### runs of spliced passive elements (prev_node_generator / next_node_generator) -/
+
+/-- the two generators continue from `a` to its neighbour `b` iff both are Fiber/Fused and at least one is Fused -/
+def joined (a b : Elem α) : Bool :=
+  (a.isFused && (b.isFiber || b.isFused)) || ((a.isFiber || a.isFused) && b.isFused)
+
+/-- maximal runs; an Edfa is always a run of its own; two adjacent Fibers are not joined -/
+def runs (l : List (Elem α)) : List (List (Elem α)) := l.splitBy joined
+
+/-- `span_loss` of any node of the run when nothing is cached: the run's losses minus the Raman gains in it.
+The code adds the node's own loss first, then the predecessors nearest-first, then the successors; for the
+last element of a run that is the order used here. -/
+def runLoss (r : List (Elem α)) : α :=
+  match r.reverse with
+  | [] => ((0:Nat) : α)
+  | last :: before =>
+    (last.loss + sumLeft (before.map Elem.loss)) - (last.ramanGain + sumLeft (before.map Elem.ramanGain))
+
+/-- same quantity, evaluated from the first element of the run (the order `span_loss(next_node)` uses) -/
+def runLossFwd (r : List (Elem α)) : α :=
+  match r with
+  | [] => ((0:Nat) : α)
+  | first :: after =>
+    (first.loss + sumLeft (after.map Elem.loss)) - (first.ramanGain + sumLeft (after.map Elem.ramanGain))
+
+def Elem.dsl : Elem α → Option α
+  | .fiber _ p => p.dsl
+  | _ => none
+
+/-- `add_fiber_padding` on one run.  Only the run's LAST element is ever looked at, and only when it is a
+non-Raman Fiber (a Fiber followed by a Fused is skipped, a RamanFiber is skipped).  Its `design_span_loss`
+becomes the run loss; if that is below `padding`, and the FIRST element of the run is a Fiber, that first
+fibre's `att_in` grows by the missing amount and `design_span_loss += padding - this_span_loss`
+(repaired behaviour: the unrepaired code added the first fibre's whole `att_in`). -/
+def padRun (padding : α) (r : List (Elem α)) : List (Elem α) :=
+  match r.getLast? with
+  | some (.fiber u p) =>
+    if p.raman then r else
+      let this := runLoss r
+      if this < padding then
+        match r with
+        | [_] =>
+          let a := p.attIn + padding - this
+          [.fiber u { p with attIn := a, dsl := some (this + (padding - this)) }]
+        | .fiber v q :: rest =>
+          let a := q.attIn + padding - this
+          .fiber v { q with attIn := a } :: (rest.dropLast ++ [.fiber u { p with dsl := some (this + (padding - this)) }])
+        | _ => r.dropLast ++ [.fiber u { p with dsl := some this }]
+      else r.dropLast ++ [.fiber u { p with dsl := some this }]
+  | _ => r
+
+/-- `add_fiber_padding` raises (TypeError in `dbm2watt(None)`) when it needs the loss of a run that contains a
+RamanFiber whose gain has not been estimated yet -/
+def padRaises (r : List (Elem α)) : Bool :=
+  match r.getLast? with
+  | some (.fiber _ p) => !p.raman && r.any (fun e => e.isRaman)
+  | _ => false
+
+def addPadding (padding : α) (l : List (Elem α)) : List (Elem α) := ((runs l).map (padRun padding)).flatten
+
+/-- `add_missing_fiber_attributes` -/
+def addAttributes (dIn dOut eol padding : α) (l : List (Elem α)) : List (Elem α) :=
+  addPadding padding (addConn dIn dOut eol l)
+
+end
+end Gnpy.Chain
